@@ -3135,6 +3135,18 @@ class _Simu(_IObserver, _params.Updatable, ABC):
             else:
                 return values.reshape(Ne, -1)
 
+        if Ne != Nn and values.shape[0] == Nn and values.size % Ne == 0 and not nodeValues:
+            # (Nn,) or (Nn, i) nodal values whose size happens to be a multiple of Ne:
+            # average them over each element's nodes instead of re-reading them as element values
+            values_n = values.reshape(Nn, -1)
+            values_e = np.concatenate(
+                [
+                    np.mean(values_n[groupElem.connect], axis=1)
+                    for groupElem in mesh.Get_list_groupElem(mesh.dim)
+                ]
+            )
+            return values_e.reshape(-1 if is1d else (Ne, -1))
+
         if nodeValues:
             shape = -1 if is1d else (Nn, -1)
             if values.size % Nn == 0:
